@@ -61,8 +61,8 @@ class ClassRef:
 class FuncRef:
     """Reference to a repository function that has a contract (or will be inlined)."""
 
-    def __init__(self, dotted, co_name=None):
-        self.dotted, self.co_name = dotted, co_name
+    def __init__(self, dotted, co_name=None, fresh=False):
+        self.dotted, self.co_name, self.fresh = dotted, co_name, fresh  # fresh: a new function object, not the module-level one
 
     def __repr__(self):
         return f"<function {self.dotted}>"
